@@ -103,7 +103,7 @@ def make_cases(T, tid, quick):
                 body.append(f"c : {sp} : comptime {{ a : {sp} = {lit}; b := a; i := 0; while i < 3 {{ i += 1; }} b }};")
                 src = "c"
             elif placement == "via-helper":
-                decls.append(f"mk{tag} :: (k: i64) -> {sp} {{ if k == 1 {{ {lit} }} else {{ {T.lit(T.val(5))} }} }}")
+                decls.append(f"mk{tag} :: (k: i64) -> {sp} {{ if k == 1 {{ return {lit}; }} dflt : {sp} = {T.lit(T.val(5))}; dflt }}")
                 body.append(f"c : {sp} : comptime {{ mk{tag}(1) }};")
                 src = "c"
             else:
@@ -241,4 +241,12 @@ def run(tier, seed):
 def explains(model, m):
     if model == "comptime-str-dangling":
         return m.case.key.startswith("str/")
+    if model == "global-annotation-conversion-not-applied":
+        # `G : T : comptime { e }` where e's own type is not T but converts to it implicitly (payload -> optional / error
+        # union, variant -> enum, i32 -> i64): the raw bytes of e's type become the global's data
+        k = m.case.key
+        if k == "computed-global/global-read":
+            return True
+        ty = k.split("/")[0]
+        return "/global/" in k and (ty.startswith("?") or "!" in ty or ty in ("EE", "E6"))
     return False
